@@ -481,6 +481,108 @@ def rule_r4(chk, p, t):
         r.error("restart-sites", f"{n_sites} restart increments found in Celestial.propagate / propagateBulk (2 confirmed by hand)")
 
 
+def rule_r5(chk, p, t):
+    """Producer side of the thrust law: the consumer (R3) reads `finite_thrust(state)[:3]`."""
+    from rsa.terms import NotEvaluable, returned_exprs
+
+    r = chk.rule(
+        "C15.R5",
+        "thrust laws put the configured acceleration on the documented axis",
+        4,
+        "every function a finite burn / maneuver may carry (the _VALID_THRUST_FUNCS tuples) returns a 6-vector whose first "
+        "three slots hold the acceleration (the derivative reads [:3]) and whose last three are zero: the inertial burn "
+        "returns the configured vector itself, the NTW burn hands the whole configured vector to ntw2eci with the state it "
+        "was given, the spiral law thrusts along the in-track axis (slot 1), the plane-change law along the cross-track axis "
+        "(slot 2) with the sign flipped in the southern hemisphere only; ntw2eci itself is the orthonormal right-handed "
+        "NTW triad of that state (shared with C04.R9)",
+        "the delivered delta-v as a number",
+    )
+    FT = "resonaate.dynamics.integration_events.finite_thrust"
+    mod = p.module(FT)
+    funcs = set()
+    for cname in ("ScheduledFiniteManeuver", "ScheduledFiniteBurn"):
+        ci = p.cls(f"{FT}.{cname}")
+        _own, tup = p.lookup_class_attr(ci, "_VALID_THRUST_FUNCS")
+        require(tup is not None and isinstance(tup, (ast.Tuple, ast.List)), f"{cname}._VALID_THRUST_FUNCS is not a tuple literal", ci.node)
+        for e in tup.elts:
+            require(isinstance(e, ast.Name), "thrust function is not a plain name", e)
+            funcs.add(e.id)
+    if len(funcs) < 4:
+        r.error(FT, f"{len(funcs)} thrust laws registered (4 confirmed by hand)")
+    SPEC = {
+        "eciBurn": ("eci", None),
+        "ntwBurn": ("ntw", None),
+        "spiralThrust": ("ntw", 1),
+        "planeChangeThrust": ("ntw", 2),
+    }
+    _ = mod
+    for name in sorted(funcs):
+        fn = p.func(f"{FT}.{name}")
+
+        def one(fn=fn, name=name):
+            spec = SPEC.get(name)
+            if spec is None:
+                raise Undecided(f"thrust law `{name}` has no row in the rule's table (new law: add its documented axis)", fn.node)
+            frame, axis = spec
+            st, par = fn.params[0], fn.params[1]
+            try:
+                rets = returned_exprs(fn)
+            except NotEvaluable as e:
+                raise Undecided(f"{name}: {e}", fn.node)
+            require(rets, f"{name}: no return", fn.node)
+            bad = []
+            seen_signs = set()
+            for e, conds in rets:
+                vec = e
+                if frame == "ntw":
+                    if not (isinstance(e, ast.Call) and call_name(e) == "ntw2eci" and len(e.args) == 2):
+                        bad.append(f"returns `{unparse(e)[:70]}` instead of ntw2eci(state, vector)")
+                        continue
+                    if unparse(e.args[0]) != st:
+                        bad.append(f"the NTW frame is built from `{unparse(e.args[0])[:50]}`, not from the state the law was given")
+                    vec = e.args[1]
+                if not (isinstance(vec, ast.Call) and call_name(vec) in ("concatenate", "hstack") and vec.args and isinstance(vec.args[0], (ast.Tuple, ast.List)) and len(vec.args[0].elts) == 2):
+                    bad.append(f"the thrust vector `{unparse(vec)[:70]}` is not concatenate((acceleration, zeros(3)))")
+                    continue
+                acc, tail = vec.args[0].elts
+                if not (isinstance(tail, ast.Call) and call_name(tail) == "zeros" and unparse(tail.args[0]) == "3"):
+                    bad.append(f"the last three slots are `{unparse(tail)[:40]}`, not zeros(3): the acceleration must sit in slots [:3]")
+                if axis is None:
+                    if unparse(acc) != par:
+                        bad.append(f"the acceleration slots hold `{unparse(acc)[:60]}`, not the configured vector `{par}`")
+                else:
+                    lit = acc.args[0] if isinstance(acc, ast.Call) and call_name(acc) in ("array", "asarray") and acc.args else acc
+                    if not (isinstance(lit, (ast.List, ast.Tuple)) and len(lit.elts) == 3):
+                        bad.append(f"the acceleration `{unparse(acc)[:60]}` is not a 3-element literal")
+                        continue
+                    for i, x in enumerate(lit.elts):
+                        if i == axis:
+                            sgn = 1
+                            if isinstance(x, ast.UnaryOp) and isinstance(x.op, ast.USub):
+                                sgn, x = -1, x.operand
+                            if unparse(x) != par:
+                                bad.append(f"slot {i} of the NTW acceleration is `{unparse(x)[:40]}`, not the configured magnitude")
+                            cond_txt = ";".join(f"{unparse(c)}={pol}" for c, pol in conds)
+                            seen_signs.add((sgn, cond_txt))
+                        elif not (isinstance(x, ast.Constant) and x.value == 0):
+                            bad.append(f"slot {i} of the NTW acceleration is `{unparse(x)[:40]}`, the law thrusts along axis {axis} only")
+            if name == "planeChangeThrust" and not bad:
+                want = {(1, f"{st}[2] >= 0=True"), (-1, f"{st}[2] >= 0=False")}
+                if seen_signs != want:
+                    bad.append(f"sign / hemisphere cases {sorted(seen_signs)} (documented: +magnitude when z >= 0, -magnitude otherwise)")
+            if name == "spiralThrust" and not bad and {s for s, _c in seen_signs} != {1}:
+                bad.append("the in-track acceleration is negated")
+            if bad:
+                r.violation(fn.qualname, "thrust-law:" + ";".join(sorted(set(b[:50] for b in bad))), f"{name}: " + "; ".join(sorted(set(bad))), fn.loc())
+            else:
+                r.ok(fn.qualname, f"{'inertial' if frame == 'eci' else 'NTW'} law, acceleration in slots [:3]" + (f", axis {axis}" if axis is not None else ""), fn.loc())
+
+        r.guard(fn.qualname, one)
+    from rules import C04
+
+    C04.rule_r9(chk, p, t, rid="C15.R6", only=("ntw2eci",))
+
+
 def run(chk, p, t):
     chk.explanation = (
         "Static decision of structural necessary conditions of C15: (R1) taint of the burn's end time through the "
@@ -492,7 +594,7 @@ def run(chk, p, t):
         "decided: the delivered delta-v."
     )
     chk.assumptions += ["scipy.integrate.solve_ivp stops only on sign changes of a terminal event function or at the end of t_span"]
-    for fn in (rule_r1, rule_r2, rule_r3, rule_r4):
+    for fn in (rule_r1, rule_r2, rule_r3, rule_r4, rule_r5):
         rid = "C15.R" + fn.__name__[-1]
         if not chk.wants(rid):
             continue
